@@ -2262,6 +2262,10 @@ def _verify_dominances_hyperparameters(dominances, dominance_type,
     ValueError: If something is inconsistent.
   """
   assert dominance_type in ("monotonic", "range")
+  if dominances and monotonicities is None:
+    raise ValueError("%s dominance constraints require 'monotonicities' to be "
+                     "specified: both features must be monotonic." %
+                     dominance_type.capitalize())
   dim_pairs = set()
   for constraint in dominances:
     if len(constraint) != 2:
@@ -2383,6 +2387,9 @@ def verify_hyperparameters(lattice_sizes,
 
   all_trusts = utils.canonicalize_trust(list(edgeworth_trusts or []) +
                                         list(trapezoid_trusts or [])) or []
+  if all_trusts and monotonicities is None:
+    raise ValueError("Trust constraints require 'monotonicities' to be "
+                     "specified: the main feature must be monotonic.")
   main_dims, cond_dims, trapezoid_cond_dims = set(), set(), set()
   dim_pairs_direction = {}
   for i, constraint in enumerate(all_trusts):
